@@ -82,9 +82,10 @@ def doc_lines(docs, emitted):
     out = []
     for d in docs:
         s = idlgen.schema_sexp(d)
+        ls = idlgen.lits_sexp(d)      # the default literals: the model lowers them itself (Build/Lower.lean) and must agree with idlgen.lower_default
         for v in (d["name"], d["name"] + "k"):
             if v in emitted:
-                out.append(f"doc {v} {s}")
+                out.append(f"doc {v} {s} {ls}")
     return out
 
 
